@@ -782,6 +782,6 @@ META = {
              "strings (KeyError) are outside the model.  Domain restrictions in the theorems: resolution components non-zero, "
              "left <= right and bottom <= top (strict for the shape-driven clause), tol >= 0 (tol < 1 for the one-pixel bounds), "
              "anchor fractions in [0,1), shape entries >= 1."),
-    "technique": "Coq proof over hand-written Gallina model (Q/Z) + exact differential correspondence (vm_compute) + Fraction predicates",
+    "technique": "Coq proof over hand-written Gallina model (Q/Z) + exact differential correspondence (vm_compute) + Fraction predicates + leaf functions regenerated from source by py2v on every run and proved equal to the model (source_is_model theorem)",
     "design_ref": "DESIGN.md section 5, C08; section 3",
 }
